@@ -396,7 +396,7 @@ def check(col, prog, tier, profile, fixture=None):
                 col.violation("I2", key, b.loc(), "%s contains a checked arithmetic operation: it panics in debug builds at the signed minimum / all-ones" % b.path)
             consts_ = [c_ for c_ in crate.bodies if not c_.is_closure and c_.name in (ZERO_N, ONES_N) and c_.path.startswith("<%s as masks::IterMasks>" % ty)]
             free_ = [f_ for f_ in crate.bodies if not f_.is_closure and f_.kind == "Fn" and f_.container is None and f_.vis != "pub" and not util.self_recursive(f_)]
-            I = util.analyser(consts_ + free_, features=("fncall",))(b)
+            I = util.analyser(consts_ + free_, features=("fncall", "comb"))(b)
             selfp = ("deref", ("param", 1, I.names.get(1)))
             x = ("param", 2, I.names.get(2))
             old = ("load", ("m0",), selfp)
@@ -432,6 +432,14 @@ def check(col, prog, tier, profile, fixture=None):
                             for z in ([f[1]] + list(subterms(f[1]))) if isinstance(f[1], tuple) else []:
                                 if (z[0] == "call" and str(z[1]).endswith("count_zeros") and z[2] and z[2][0] == old) or z == ("un", "Not", old):
                                     okn = okn or (zones.entails(st.facts, "Eq", z, mk_int(0), I.tys) and not stores)
+                        # the same test in either spelling and polarity: `cur == ONES` true, `cur != ONES` false
+                        for f in st.facts:
+                            t_ = f[1]
+                            if f[0] in ("eq", "ne") and f[2] in (0, 1) and not isinstance(f[2], bool) and isinstance(t_, tuple) and len(t_) == 4 and t_[0] == "bin" and t_[1] in ("Eq", "Ne"):
+                                truth_ = (f[0] == "eq") == bool(f[2])
+                                equal_ = truth_ if t_[1] == "Eq" else not truth_
+                                if equal_ and ((t_[2] == old and all_ones(t_[3])) or (t_[3] == old and all_ones(t_[2]))):
+                                    okn = okn or not stores
                         # `!cur == 0`: the complement is zero exactly for the all-ones mask
                         okn = okn or (any(f[0] == "eq" and f[2] == 1 and isinstance(f[1], tuple) and f[1][0] == "bin" and f[1][1] == "Eq" and f[1][3] == mk_int(0) and f[1][2] == ("un", "Not", old) for f in st.facts) and not stores)
                         # `match current.count_zeros() { 0 => None, .. }`
